@@ -44,10 +44,15 @@ def run_condition(path, name, line, timeout_s, per_path=None):
     env["PYTHONHASHSEED"] = "0"
     t0 = time.time()
     try:
-        p = subprocess.run(cmd, capture_output=True, text=True, timeout=timeout_s * 3 + 120, env=env, cwd=VERIF)
+        p = subprocess.run(cmd, capture_output=True, text=True, timeout=timeout_s * 4 + 120, env=env, cwd=VERIF)
         out = p.stdout + p.stderr
     except subprocess.TimeoutExpired as e:
         out = "TIMEOUT " + str(e)
+        if timeout_s > 20:
+            # CrossHair overran its own budget (a path stuck inside the solver): one retry with a third of the budget
+            r = run_condition(path, name, line, max(15, timeout_s // 3), per_path=max(5, timeout_s // 9))
+            r["msg"] = "(after one over-run at %d s) %s" % (timeout_s, r["msg"])
+            return r
     dt = time.time() - t0
     verdict, msg = "unable", out.strip()[-400:]
     for l in out.splitlines():
@@ -125,7 +130,7 @@ def main(check_id, harness_path, tier, seed, meta, t_quick=25, t_thorough=120, k
         conds = [c for c in conds if only(c[0])]
     nproc = int(os.environ.get("VERIF_JOBS", "0")) or min(16, os.cpu_count() or 4)
     with ThreadPoolExecutor(nproc) as ex:
-        results = list(ex.map(lambda c: run_condition(harness_path, c[0], c[1], T, per_path=max(5, T // 2)), conds))
+        results = list(ex.map(lambda c: run_condition(harness_path, c[0], c[1], T, per_path=max(5, T // 3)), conds))
     known, _ = load_known()
     violations, known_hits, inconclusive = [], [], []
     for r in results:
@@ -199,7 +204,7 @@ def run_extra(check_id, harness_path, tier, t_quick=25, t_thorough=90, label="cr
     conds = conditions(harness_path)
     nproc = int(os.environ.get("VERIF_JOBS", "0")) or min(16, os.cpu_count() or 4)
     with ThreadPoolExecutor(nproc) as ex:
-        results = list(ex.map(lambda c: run_condition(harness_path, c[0], c[1], T, per_path=max(5, T // 2)), conds))
+        results = list(ex.map(lambda c: run_condition(harness_path, c[0], c[1], T, per_path=max(5, T // 3)), conds))
     violations, inconclusive = [], []
     for r in results:
         if r["verdict"] == "counterexample":
